@@ -56,10 +56,9 @@ static void explore(z_cfg_t &cfg, const std::string &lab, env_t env, const std::
     if (cur.empty()) return;
   }
   auto succs = cfg.next_nodes(lab);
-  if (succs.begin() == succs.end()) {
-    if (cfg.has_exit() && lab == cfg.exit()) for (auto &e : cur) { auto it = e.find(out); res.insert("EXIT " + out + "=" + std::to_string(it == e.end() ? 0 : it->second)); }
-    return;
-  }
+  // an execution that reaches the end of the exit block ends there, whether or not the exit block has successors
+  if (cfg.has_exit() && lab == cfg.exit()) { for (auto &e : cur) { auto it = e.find(out); res.insert("EXIT " + out + "=" + std::to_string(it == e.end() ? 0 : it->second)); } return; }
+  if (succs.begin() == succs.end()) return;
   for (auto const &t : boost::make_iterator_range(succs.begin(), succs.end())) for (auto &e : cur) explore(cfg, t, e, out, res, depth + 1);
 }
 static outcomes_t run_all(z_cfg_t &cfg, const std::vector<std::string> &vars, const std::string &out) {
@@ -83,7 +82,9 @@ static z_cfg_t *build(unsigned long long seed, variable_factory_t &vfac, std::ve
   std::vector<std::string> bn; for (int i = 0; i < nb; i++) bn.push_back("b" + std::to_string(i));
   // function with inputs a, b, c and output d
   function_decl<z_number, varname_t> decl("f", {v[0], v[1], v[2]}, {v[3]});
-  z_cfg_t *cfg = new z_cfg_t(bn[0], bn[nb - 1], decl);
+  // EXITANY=1: the exit block is any block but the first, so that it may have successors
+  int exit_idx = getenv("EXITANY") ? r.in(1, nb - 1) : nb - 1;
+  z_cfg_t *cfg = new z_cfg_t(bn[0], bn[exit_idx], decl);
   std::vector<z_basic_block_t *> bb; for (int i = 0; i < nb; i++) bb.push_back(&cfg->insert(bn[i]));
   std::ostringstream desc;
   std::vector<std::set<int>> succ(nb);
@@ -102,7 +103,7 @@ static z_cfg_t *build(unsigned long long seed, variable_factory_t &vfac, std::ve
       else if (kind == 7) { z_lin_exp_t e(z_number((long)c0)); e = e + z_number((long)r.in(-1, 1)) * v[y]; z_lin_cst_t cst = z_lin_cst_t(e <= z_number(0)); bb[i]->assertion(cst); crab::crab_string_os cs; cs << cst; desc << " assert(" << cs.str() << ");"; }
       else { bb[i]->havoc(v[x]); desc << " havoc " << names[x] << ";"; }
     }
-    desc << " ->"; for (int t : succ[i]) desc << " " << bn[t]; desc << "\n";
+    desc << " ->"; for (int t : succ[i]) desc << " " << bn[t]; if (i == exit_idx) desc << "   [exit]"; desc << "\n";
   }
   desc_out = desc.str();
   return cfg;
